@@ -1181,6 +1181,37 @@ let do_fwt id ins outs =
     end
   | _ -> verdict "fwt" id "diff" "malformed-line" ""
 
+(* ---- engine proftext ----
+   pft <id> <value> => <err> <kind> <canonical condition> <ID> <String()> <String() after re-Set> <rules after re-Set on top>
+   model: Model/ProfText.v; package net is an oracle instantiated from the implementation's own observation of this value
+   (which kind of condition it is and how it prints): what is compared is the cutting, the trimming, the order of the three
+   attempts and the printed form *)
+let do_pft id ins outs =
+  match ins, outs with
+  | [v], [err; kind; canon; pid; s1; s2; n] ->
+    let vb = bytes_of_token v in
+    if err = "1" then verdict "pft" id "ok" "rejected" ""
+    else if not (ascii_text vb) then verdict "pft" id "ok" "nonascii" ""
+    else begin
+      let enc l = (match l with [] -> "-" | _ -> hex_of_string (string_of_bytes l)) in
+      let cb = bytes_of_token canon in
+      let cond = (match cut_eq vb with Some (c, _) -> trim_space c | None -> []) in
+      let orc k t = if kind = k && (t = cond || t = cb) then Some cb else None in
+      let problems = ref [] and specs = ref [] in
+      (match prof_text_parse (orc "cidr") (orc "mac") (fun t -> kind = "iface" && t = cond) vb with
+       | Some r ->
+         if enc (snd r) <> pid then problems := Printf.sprintf "ID impl=%s model=%s" pid (enc (snd r)) :: !problems;
+         if enc (prof_text_show r) <> s1 then problems := Printf.sprintf "String impl=%s model=%s" s1 (enc (prof_text_show r)) :: !problems
+       | None -> problems := "model rejects" :: !problems);
+      if s2 <> s1 then begin specs := "C17" :: !specs; problems := Printf.sprintf "String() %s reloads as %s" s1 s2 :: !problems end;
+      if n <> "1" then begin specs := "C17" :: !specs; problems := Printf.sprintf "re-Set of String() left %s rules" n :: !problems end;
+      let detail = String.concat "; " (List.rev !problems) in
+      if !specs <> [] then verdict "pft" id "spec:C17,C11" kind detail
+      else if !problems = [] then verdict "pft" id "ok" kind ""
+      else verdict "pft" id "diff" kind detail
+    end
+  | _ -> verdict "pft" id "diff" "malformed-line" ""
+
 (* ---- engine clientinfo ---- *)
 let hexs (l : z list) = match l with [] -> "-" | _ -> hex_of_string (string_of_bytes l)
 
@@ -1342,6 +1373,7 @@ let () =
       | "hdr" :: id :: rest -> let (i, o) = split_arrow rest in do_hdr id i o
       | "cfg" :: id :: rest -> let (i, o) = split_arrow rest in do_cfg id i o
       | "fwt" :: id :: rest -> let (i, o) = split_arrow rest in do_fwt id i o
+      | "pft" :: id :: rest -> let (i, o) = split_arrow rest in do_pft id i o
       | "rc" :: id :: rest -> let (i, o) = split_arrow rest in do_rc id i o
       | "router" :: id :: rest -> let (i, o) = split_arrow rest in do_router id i o
       | "race" :: id :: rest -> let (i, o) = split_arrow rest in do_race id i o
